@@ -321,3 +321,23 @@ def compare(ck, cases, model_out, impl_out, canon_m=lambda x: x, canon_i=lambda 
         if canon_m(m) != canon_i(i):
             bad.append(k)
     return bad
+
+
+def generic_replay(ck, mod, data):
+    """re-run the single case of a replay file on both sides (needs a "wire" line in the file);
+    exit status 1 when they still disagree (by the module's `agree(model_line, impl_line)` if it
+    defines one, else by equality)"""
+    print(json.dumps({k: v for k, v in data.items() if k != "coq_log_tail"}, indent=1, ensure_ascii=False)[:3000])
+    wire = data.get("wire")
+    if wire is None:
+        print("replay: this file names a broken obligation, not an input; re-run the check itself")
+        return 1
+    ck.ocaml_build()
+    ck.harness_build([ck.prop.lower()])
+    m = ck.model([wire])[0]
+    i = ck.impl([wire])[0]
+    print("model:          " + m)
+    print("implementation: " + i)
+    same = mod.agree(m, i) if hasattr(mod, "agree") else (m == i)
+    print("REPLAY: " + ("agree now" if same else "still disagree"))
+    return 0 if same else 1
